@@ -23,7 +23,10 @@ RULE = (
     "session, deterministic_sign} / {sign, wipe, exit, close, sign} / {address(b,i), next_address(b), position_of, address_info, "
     "in, len} with fresh keys per history; distinct = distinct operation sequence (with its arguments). Schedules: multi-threaded "
     "runs of a pure-call battery with seeded yield injection and a backend-toggling thread; distinct = distinct hash of the observed "
-    "switch sequence. A history is non-trivial when it contains at least one successful signature / handed-out address."
+    "switch sequence. Concurrent nonce rounds: 2..6 threads released by a barrier call musig2.sign on one secret nonce (same or "
+    "different sessions, sometimes one wrong key) at interpreter switch intervals 5 ms .. 1 us, no yield injected; the history is "
+    "the multiset of outcomes and at most one may be a signature. A history is non-trivial when it contains at least one successful "
+    "signature / handed-out address."
 )
 ASSUMPTIONS = [
     "CPython's GIL makes statement-level interleaving the relevant granularity; interleavings inside a C call of the bindings are not controllable",
